@@ -19,11 +19,12 @@ import (
 
 var codecWriter = &xWriter{
 	Prims: map[string]xPrim{
-		"b.buf.WriteByte": {"go_emit_u8", []int{0}},
-		"bWriteU8":        {"go_emit_u8", []int{1}},
-		"bWriteU16":       {"go_emit_u16", []int{1}},
-		"bWriteU32":       {"go_emit_u32", []int{1}},
-		"bWriteU64":       {"go_emit_u64", []int{1}},
+		"b.buf.WriteByte":   {"go_emit_u8", []int{0}},
+		"bWriteU8":          {"go_emit_u8", []int{1}},
+		"bWriteU16":         {"go_emit_u16", []int{1}},
+		"bWriteU32":         {"go_emit_u32", []int{1}},
+		"bWriteU64":         {"go_emit_u64", []int{1}},
+		"b.buf.WriteString": {"go_emit_bytes", []int{0}},
 	},
 	Calls: map[string]string{"b.WriteHead": "tr_WriteHead", "b.WriteInt8": "tr_WriteInt8", "b.WriteInt16": "tr_WriteInt16",
 		"b.WriteInt32": "tr_WriteInt32", "b.WriteInt64": "tr_WriteInt64"},
@@ -37,6 +38,11 @@ var xUnits = []xUnit{
 	{Name: "tr_WriteInt16", Dir: "tars/protocol/codec", Func: "Buffer.WriteInt16", Writer: codecWriter},
 	{Name: "tr_WriteInt32", Dir: "tars/protocol/codec", Func: "Buffer.WriteInt32", Writer: codecWriter},
 	{Name: "tr_WriteInt64", Dir: "tars/protocol/codec", Func: "Buffer.WriteInt64", Writer: codecWriter},
+	{Name: "tr_WriteBool", Dir: "tars/protocol/codec", Func: "Buffer.WriteBool", Writer: codecWriter},
+	{Name: "tr_WriteUint8", Dir: "tars/protocol/codec", Func: "Buffer.WriteUint8", Writer: codecWriter},
+	{Name: "tr_WriteUint16", Dir: "tars/protocol/codec", Func: "Buffer.WriteUint16", Writer: codecWriter},
+	{Name: "tr_WriteUint32", Dir: "tars/protocol/codec", Func: "Buffer.WriteUint32", Writer: codecWriter},
+	{Name: "tr_WriteString", Dir: "tars/protocol/codec", Func: "Buffer.WriteString", Writer: codecWriter},
 	// selector.BuildStaticWeightList up to the scaling range: static-weight check, min / max weight, guard, clamp
 	{Name: "tr_BSWL_range", Dir: "tars/selector", Func: "BuildStaticWeightList", From: "var maxRange, totalWeight int", To: "if minWeight > 0 {",
 		Outs: []string{"maxRange", "totalWeight", "minWeight", "maxWeight"}},
